@@ -121,7 +121,7 @@ func init() {
 				return 40_000
 			}, Run: c10Random,
 				Rule: "PRNG histories of 20..200 calls (one in 64: 3000..6000 calls), biased to stay legal for long stretches, with resets and errors in the middle and with runs of 15..65 calls of one drawing verb (new operands each) followed by a decode check",
-				Min:  map[string]int64{"state_error": 1000, "accepted_histories_decoded": 1000, "runs_of_one_verb": 5000, "runs_of_arcs": 300}},
+				Min:  map[string]int64{"state_error": 1000, "accepted_histories_decoded": 1000, "runs_of_one_verb": 5000, "runs_of_arcs": 300, "runs_of_255_or_more": 1000}},
 		},
 	})
 }
@@ -402,6 +402,13 @@ func c10Random(c *run.Ctx, idx uint64) {
 				// a run of one drawing verb around the run-length chunk sizes (16 per chunk, 32 for the 1-operand-pair verbs)
 				c10RunVerb = 2 + r.Intn(len(gen.DrawVerbs)-2)
 				runLeft = r.Pick(15, 16, 17, 18, 31, 32, 33, 34, 49, 65)
+				if r.Chance(1, 12) {
+					runLeft = r.Pick(255, 256, 257, 300, 513) // around the widths of 8-bit counters
+					c.Count("runs_of_255_or_more", 1)
+				}
+				if i+runLeft+3 > n {
+					n = i + runLeft + 3 // the history grows to hold the run and the end of its path
+				}
 				runPending = true
 				c.Count("runs_of_one_verb", 1)
 				if k := gen.DrawVerbs[c10RunVerb]; k == rec.KAbsArcTo || k == rec.KRelArcTo {
